@@ -42,7 +42,7 @@ CLAIMED = {
         text="Kernel-checked: the structural start-code scanner equals the declarative least-index specification; the NAL iterator equals the declarative split; for every byte string shorter than 2^32 "
              "the converted access unit parses exactly to its end as 4-byte length-prefixed units equal to the specification's units; constructive theorem for all joins of well-formed NAL units with "
              "3/4-byte start codes, leading zeros and trailing zeros; linear step bound of the scanner; the model accepts an ADTS frame iff it is structurally valid by bit position and stores exactly "
-             "bytes [header, declared length). Correspondence: exhaustive small strings, constructive joins, ADTS sweeps; Spec oracle evaluated on the implementation's own output.",
+             "bytes [header, declared length). Correspondence: exhaustive small strings, constructive joins, ADTS sweeps; Spec oracle evaluated on the implementation's own output. annexb_to_avcc and hevc_annexb_to_hvcc are TRANSLATED from the source on every run (tools/rs2lean_nal.py) and proved equal to the model's toAvcc (Props/C14Generated.lean).",
         note=TB + "Assumes slices <= isize::MAX and, for the length prefix, units < 2^32 bytes.",
         technique="Lean 4 proof (fun_induction over the scanner, bit-field arithmetic by omega) + correspondence check",
         ref="DESIGN.md section 5 C14"),
@@ -68,7 +68,7 @@ CLAIMED = {
              "write/finish reply is ok exactly when the Spec.Contract violation list of that call is empty, and every error names a precondition that the call violated (explains). The soft-float "
              "facts used (monotone ticks, lt/le duality, range test equivalence on genuine doubles) are proved; the scanner hypothesis is discharged by C14_split. Builder half (Props/C04Builder.lean): for every sequence of builder "
              "calls build succeeds iff some call configured video and no Opus track above 255 channels is left, and MissingVideoConfig is reported iff no video call was made. "
-             "Correspondence + oracle: the implementation's accept/reject decisions and error variants are judged against Spec.Contract computed from the history of the implementation's own replies. The guard prefixes of write_video / write_video_with_dts / write_audio are TRANSLATED from src/api.rs on every run (tools/rs2lean_guards.py) and proved to decide as the model does (Props/C04Generated.lean).",
+             "Correspondence + oracle: the implementation's accept/reject decisions and error variants are judged against Spec.Contract computed from the history of the implementation's own replies. The guard prefixes of write_video / write_video_with_dts / write_audio and the error table convert_mp4_error are TRANSLATED from src/api.rs on every run (tools/rs2lean_guards.py) and proved to decide as the model does (Props/C04Generated.lean).",
         note=TB + "Residual explicit hypotheses in the theorems: timestamps are decodings of 64-bit patterns (IsDouble), converted payload and file below 4 GiB (VideoSizeOk/AudioSizeOk/NoSizeLimit), NoStraddle (now unnecessary).",
         technique="Lean 4 proof (refinement to an abstract history with a 22-field invariant) + correspondence check",
         ref="DESIGN.md section 5 C04"),
@@ -96,7 +96,7 @@ CLAIMED = {
              "vpcC/esds/dOps and the sample entries are evaluated on the implementation's files against expectations computed from the submitted first keyframe by the Spec (first SPS/PPS/VPS by NAL type, "
              "sequence-header OBU bytes, VP9 header fields), for progressive files and fragmented init segments; audio entry channel count / rate / ASC / dOps. The AV1 expectations come from a CERTIFYING "
              "reader (Spec/Av1Decode.lean): a full syntax-table decoder whose answer is used only if the trusted encoder re-encodes it to a prefix of the bits (certifiedSeqHdr_sound) - the library's own parser is no longer consulted "
-             "by the oracle (that circularity hid the uvlc-32 defect, now fixed in /repo).",
+             "by the oracle (that circularity hid the uvlc-32 defect, now fixed in /repo). extract_avc_config / extract_hevc_config / is_h264_keyframe / is_hevc_keyframe and their helpers are TRANSLATED from src/codec/h264.rs and h265.rs on every run (tools/rs2lean_nal.py) and proved equal to the model's functions (Props/C07Generated.lean).",
         note=TB + "Known findings (known_findings.json): audio-entry-rate (16.16 field cannot hold rates >= 65536), av1C-csp (monochrome; behaviour pinned by a unit test). VP9 'accepted form' is the library's own synthetic header layout.",
         technique="Lean 4 proof (parser∘encoder round trip over the full AV1 header syntax) + strict-decoder oracle on the implementation's output + correspondence check",
         ref="DESIGN.md section 5 C07"),
